@@ -760,7 +760,7 @@ def run(ctx):
     res.samples = [{"witness": r["witness"], "cause": r["cause"], "level": r["level"], "diagnostic": r["diagnostic"]} for r in results if r["role"] == "poisoned"][:10]
     res.samples.append({"merge_tables": tables})
     res.analysed = {"witnesses": meta, "nopanic_sites_by_rule": by, "merge_guard_tables": {k: v for k, v in tables.items() if isinstance(v, dict)}}
-    res.floor("witnesses", meta["witnesses"], 95)
+    res.floor("witnesses", meta["witnesses"], 180)
     res.floor("single-valued attributes guarded", sum(len([1 for x in t.values() if x.startswith("guarded")]) for k, t in tables.items() if isinstance(t, dict)), 10)
     res.trusted_base = ["rustc nightly MIR construction", "mirfacts extractor", "rules/p_c16.py", "rustc's accept/reject verdict on the witness programs",
                         "syn: fields of Fields::Named have identifiers; parse_quote!/quote! of fixed templates over already parsed nodes do not fail"]
